@@ -151,7 +151,6 @@ theorem C06_py_module_imports_available (o : Opts) (deprecated : Bool) :
 allocator-aware constructors are emitted; the VLA include is given when a variable-length array occurs; a support header
 exists when support is not omitted. -/
 structure OptsOkCpp (o : Opts) (t : Top) : Prop where
-  useStd : o.useStd = true
   alloc : o.allocCtor = true → o.allocInc ≠ []
   vla : (direct t).usesVla = true → o.vlaInc ≠ []
   support : o.omitSer = false → o.support ≠ []
@@ -229,17 +228,18 @@ theorem C06_facilities_covered_cpp (pcfg : Namespace.Cfg) (o : Opts) (t : Top) (
     intro ty hty hfty
     have hflag := direct_flag hty hfty
     rcases xTyFac_kinds o ty f hfty with hk | hk | hk | hk <;> subst hk
-    · have hn : lit "cstdint" ∈ cppStdNames o (direct t) := by
-        simp only [xFlag] at hflag; simp [cppStdNames, hok.useStd, hflag]
+    · have hus := xTyFac_fixedInt_useStd o ty hfty
+      have hn : lit "cstdint" ∈ cppStdNames o (direct t) := by
+        simp only [xFlag] at hflag; simp [cppStdNames, hus, hflag]
       have := hstd _ hn; rw [angle_cstdint] at this
       exact covered_of_mem this (provides_of_std std_cstdint)
     · have hn : lit "array" ∈ cppStdNames o (direct t) := by
         simp only [xFlag] at hflag
-        rcases hflag with hflag | hflag <;> simp [cppStdNames, hok.useStd, hflag]
+        rcases hflag with hflag | hflag <;> simp [cppStdNames, hflag]
       have := hstd _ hn; rw [angle_array] at this
       exact covered_of_mem this (provides_of_std std_array)
     · have hn : lit "bitset" ∈ cppStdNames o (direct t) := by
-        simp only [xFlag] at hflag; simp [cppStdNames, hok.useStd, hflag]
+        simp only [xFlag] at hflag; simp [cppStdNames, hflag]
       have := hstd _ hn; rw [angle_bitset] at this
       exact covered_of_mem this (provides_of_std std_bitset)
     · simp only [xFlag] at hflag
@@ -355,7 +355,7 @@ end BeforeFix
 
 /-! ### non-vacuity: the hypotheses are met by ordinary inputs -/
 
-example : OptsOkCpp (wOpts false 17) wDelimitedUnion := ⟨rfl, by decide, by decide, by decide⟩
+example : OptsOkCpp (wOpts false 17) wDelimitedUnion := ⟨by decide, by decide, by decide⟩
 example : ∃ incs, emitted .cpp wCfg (wOpts true 14) wSealedUnion = .ok incs ∧ incs ≠ [] := ⟨_, rfl, by decide⟩
 /-- A nested type: the include of the dependency is its `make_path`. -/
 example : emitted .c wCfg (wOpts true 0) (.msg (.mk (wName "N") false true [.comp (.mk (wName "D") false true [.bool] [])] []) false)
